@@ -191,6 +191,12 @@ func (msg MsgInitiateTokenDeposit) Validate(ac address.Codec) error {
 		return ErrInvalidAmount
 	}
 
+	// withdrawal leaves commit to the amount as a 64-bit integer, so a larger
+	// deposit could never be refunded or withdrawn back in one piece
+	if !msg.Amount.Amount.IsUint64() {
+		return ErrInvalidAmount.Wrap("amount must fit in 64 bits")
+	}
+
 	if msg.BridgeId == 0 {
 		return ErrInvalidBridgeId
 	}
